@@ -22,13 +22,34 @@ func init() { Registry["C12"] = c12 }
 // anyWorld draws a world from the shared corpus: honest, or with one injected fault of any family.
 func anyWorld(r *mrand.Rand) (*world.World, string) {
 	w := richHonest(r)
-	switch k := r.Intn(13); k {
+	switch k := r.Intn(16); k {
+	case 13, 14:
+		// an issuer-chain header still carries an EARLIER issue of the root (same key and name, expired since), or an earlier issue
+		// of its signer: the artefacts that only one stage looks at. Pool and quote hold the current root.
+		old := world.Issue(world.RootTemplate(world.Window{NotBefore: world.Far.NotBefore, NotAfter: world.Epoch.Add(-10 * world.Day)}), nil, w.PKI.Root.Key)
+		w.Resign() // one signer for both documents
+		which := r.Intn(5)
+		switch which {
+		case 0:
+			w.TcbHdr = map[string][]string{world.HdrTcbInfo: {world.IssuerChainStyled(w.HdrStyle, w.PKI.TcbSign, old)}}
+		case 1:
+			w.QeHdr = map[string][]string{world.HdrQeID: {world.IssuerChainStyled(w.HdrStyle, w.PKI.TcbSign, old)}}
+		case 2:
+			w.TcbHdr = map[string][]string{world.HdrTcbInfo: {world.IssuerChainStyled(w.HdrStyle, w.PKI.TcbSign, old)}}
+			w.QeHdr = map[string][]string{world.HdrQeID: {world.IssuerChainStyled(w.HdrStyle, w.PKI.TcbSign, old)}}
+		case 3:
+			w.CrlHdr = map[string][]string{world.HdrPckCrl: {world.IssuerChainStyled(w.HdrStyle, w.PKI.Inter, old)}}
+		case 4:
+			oldInter := world.Reissue(w.PKI.Inter, w.PKI.Root, func(t *x509.Certificate) { t.NotAfter = world.Epoch.Add(-10 * world.Day) })
+			w.CrlHdr = map[string][]string{world.HdrPckCrl: {world.IssuerChainStyled(w.HdrStyle, oldInter, w.PKI.Root)}}
+		}
+		return w, "c06/" + []string{"tcbinfo", "qeidentity", "tcbinfo-and-qeidentity", "pckcrl", "pckcrl-signer"}[which] + "-header-carries-an-expired-earlier-issue"
 	case 12:
 		// the root certificate carried in the quote has expired; the pool holds a renewed certificate for the same key and name
 		old := world.Issue(world.RootTemplate(world.Window{NotBefore: world.Far.NotBefore, NotAfter: world.Epoch.Add(-10 * world.Day)}), nil, w.PKI.Root.Key)
 		w.Q.Chain = world.ChainPEM(false, w.PKI.Leaf, w.PKI.Inter, old)
 		return w, "c06/root-in-quote-expired-pool-root-renewed"
-	case 0, 1, 2:
+	case 0, 1, 2, 15:
 		return w, "honest"
 	case 3:
 		fl := faults01()
